@@ -90,6 +90,16 @@ func registerIntrinsics() {
 		in.vcLazy(in.tc.Not(in.term(args[0])), "ASSERT", func() (string, string) { return id, "assertion " + id + " violated at " + in.callerWhere() })
 		return nil, nDone
 	})
+	reg("vxAssertE", func(in *Interp, cc *callCtx, args []Value) (Value, nativeStatus) {
+		id := in.strArg(args[1])
+		in.ex.mu.Lock()
+		in.ex.reached["assert:"+id]++
+		in.ex.mu.Unlock()
+		in.engineOnly = true
+		in.vcLazy(in.tc.Not(in.term(args[0])), "ASSERT", func() (string, string) { return id, "assertion " + id + " (engine-observable fact) violated at " + in.callerWhere() })
+		in.engineOnly = false
+		return nil, nDone
+	})
 	reg("vxReach", func(in *Interp, cc *callCtx, args []Value) (Value, nativeStatus) {
 		id := in.strArg(args[0])
 		in.ex.mu.Lock()
